@@ -598,7 +598,7 @@ fn try_unwrap_err_case(cnt: u16, fc: bool, ff: bool, fd: bool, has_md: bool, in_
     state(|s| sp::set_flags(s, false, false, false));
     crate::cc::remove_from_list(x);
 }
-//@ C13 C12 | complete | deciding | feat=full,finweak | fn=Cc::try_unwrap | timeout=900
+//@ C08 C13 C12 | complete | deciding | feat=full,finweak | fn=Cc::try_unwrap | timeout=900
 #[kani::proof]
 #[kani::unwind(9)]
 pub(crate) fn cc_try_unwrap_err_contract() {
